@@ -248,4 +248,33 @@ theorem rangeElement_single_hardened (r : List Char) (h : Char) (hh : hardeningC
   simp only [hh, if_true, List.dropLast_concat, hnd, Bool.false_eq_true, if_false]
   rfl
 
+/-! ### Unicode decimal digits (what `int()` accepts besides ASCII) -/
+
+theorem uniDigit_table : ∀ z ∈ uniZeros, ∀ d < 10, (Char.ofNat (z + d)).isDigit = false ∧ uniDigit (Char.ofNat (z + d)) = some d ∧
+    pyDigit (Char.ofNat (z + d)) = some d ∧ isPySpace (Char.ofNat (z + d)) = false := by
+  decide +kernel
+theorem digitsVal_uni_cons (z : Nat) (hz : z ∈ uniZeros) (d : Nat) (hd : d < 10) (cs : List Char) (prev : Bool) (acc : Nat) :
+    digitsVal (Char.ofNat (z + d) :: cs) prev acc = digitsVal cs true (acc * 10 + d) := by
+  obtain ⟨h1, h2, -, -⟩ := uniDigit_table z hz d hd
+  conv => lhs; unfold digitsVal
+  simp [h1, h2]
+/-- a numeral written with the digits of one Unicode block has the value of its ASCII spelling -/
+theorem digitsVal_uni_block (z : Nat) (hz : z ∈ uniZeros) : ∀ (ds : List Nat), (∀ d ∈ ds, d < 10) → ∀ (prev : Bool) (acc : Nat),
+    digitsVal (ds.map fun d => Char.ofNat (z + d)) prev acc = digitsVal (ds.map fun d => Char.ofNat (48 + d)) prev acc := by
+  intro ds
+  induction ds with
+  | nil => intro _ prev acc; rfl
+  | cons d ds ih =>
+    intro h prev acc
+    have hd : d < 10 := h d (by simp)
+    have ha : digitsVal (Char.ofNat (48 + d) :: ds.map fun d => Char.ofNat (48 + d)) prev acc =
+        digitsVal (ds.map fun d => Char.ofNat (48 + d)) true (acc * 10 + d) := by
+      have h0 : ∀ k, k < 10 → (Char.ofNat (48 + k)).isDigit = true ∧ (Char.ofNat (48 + k)).toNat - 48 = k := by decide
+      have h1 := h0 d hd
+      conv => lhs; unfold digitsVal
+      simp [h1.1, h1.2]
+    simp only [List.map_cons]
+    rw [digitsVal_uni_cons z hz d hd, ha]
+    exact ih (fun x hx => h x (by simp [hx])) true _
+
 end Pycoin.Subpaths
